@@ -1,31 +1,9 @@
 package hermes
 
-// C05: when output records are written (regions lifted from the day loop and set-up of Run).
+// C05: when the daily record is written (region lifted from the day loop of Run).
 
 func init() {
 	vRegister("zzC05Daily", func(a []int) { zzC05Daily() })
-	vRegister("zzC05Annual", func(a []int) { zzC05Annual() })
-	vRegister("zzC05AnnualDay", func(a []int) { zzC05AnnualDay(a[0]) })
-}
-
-// native counting writer: one record = one line break written
-type zzLineCounter struct{ tag string }
-
-func (w *zzLineCounter) Write(s string) (int, error) {
-	if s == "\r\n" {
-		vCallLog["call:WriteLine:"+w.tag]++
-	}
-	return len(s), nil
-}
-func (w *zzLineCounter) WriteBytes(b []byte) (int, error) { return len(b), nil }
-func (w *zzLineCounter) WriteRune(r rune) (int, error)    { return 1, nil }
-func (w *zzLineCounter) WriteError(e error) (int, error)  { return 0, nil }
-func (w *zzLineCounter) Close()                           {}
-
-func zzOneColumnConfig(tag string) *OutputConfig {
-	c := &OutputConfig{numDataColumns: 1, DataColumns: []OutputDataColum{{FormatStr: "%s", valueRef: "x"}}, formatType: csvOut, seperatorRune: ','}
-	vTag(c, tag)
-	return c
 }
 
 func zzC05Daily() {
@@ -53,71 +31,4 @@ func zzC05Daily() {
 	} else {
 		vAssert("C05.daily.no_record_otherwise", n == 0)
 	}
-}
-
-func zzC05Annual() {
-	g := NewGlobalVarsMain()
-	g.TAG = NewDualType(0, 1)
-	doy := vInt("doy")
-	vAssume(doy >= 1 && doy <= 366)
-	g.TAG.SetByIndex(doy - 1)
-	OUTDAY := vInt("outday")
-	vAssume(OUTDAY >= 1 && OUTDAY <= 365)
-	g.JTAG = 365
-	JZ := vInt("jz")
-	vAssume(JZ >= 0 && JZ <= 90)
-	g.NAKT = 0.5
-	var SWCY, SWCY1 float64
-	yearly := zzOneColumnConfig("yearly")
-	var pnam OutWriter = &zzLineCounter{tag: "yearly"}
-	g.OUTSUM = vFloat("outsum")
-	_, ctl := zzR_AnnualOut(&SWCY, SWCY1, &g, OUTDAY, yearly, pnam, JZ)
-	vCover("C05.annual.reach")
-	vAssert("C05.annual.falls_through", ctl == 0)
-	n := vCalls("call:WriteLine:yearly")
-	if doy == OUTDAY {
-		vCover("C05.annual.cover_output_day")
-		vAssert("C05.annual.one_record_on_output_day", n == 1)
-		vAssert("C05.annual.counters_reset_after_record", g.OUTSUM == 0 && g.SICKER == 0 && g.CAPSUM == 0)
-	} else {
-		vAssert("C05.annual.no_record_otherwise", n == 0)
-	}
-}
-
-// the day of year on which the yearly record is written, against the configured date in a simulated year
-func zzC05AnnualDay(format int) {
-	g := NewGlobalVarsMain()
-	var dri Config
-	g.Datum = DateConverter(50, DateFormat(format))
-	_, d0, d1 := zzDigits2("d")
-	_, m0, m1 := zzDigits2("m")
-	dd, mm := int(d0-'0')*10+int(d1-'0'), int(m0-'0')*10+int(m1-'0')
-	ye := vInt("endyear")
-	vAssume(ye >= 1901 && ye <= 2099)
-	ys := vInt("simyear") // a simulated year
-	vAssume(ys >= 1901 && ys <= ye)
-	vAssume(mm >= 1 && mm <= 12 && dd >= 1 && dd <= zzDaysInMonth(mm, ye) && dd <= zzDaysInMonth(mm, ys))
-	if format == int(DateDElong) {
-		dri.AnnualOutputDate = string([]byte{d0, d1, m0, m1})
-	} else {
-		dri.AnnualOutputDate = string([]byte{m0, m1, d0, d1})
-	}
-	y0, y1, y2, y3 := byte('0'+ye/1000), byte('0'+(ye/100)%10), byte('0'+(ye/10)%10), byte('0'+ye%10)
-	dri.EndDate = string([]byte{'3', '1', '1', '2', y0, y1, y2, y3})
-	if format != int(DateDElong) {
-		dri.EndDate = string([]byte{'1', '2', '3', '1', y0, y1, y2, y3})
-	}
-	g.ENDE = 1
-	var OUTDAY int
-	_, ctl := zzR_AnnualDay(&g, &dri, &OUTDAY)
-	vCover("C05.annualday.reach")
-	vAssert("C05.annualday.falls_through", ctl == 0)
-	vObserveInt("outday", OUTDAY)
-	want := zzDoy(dd, mm, ys)
-	if vKnown("C05-annual-day-of-end-year") {
-		// recorded finding: the day of year is taken in the END year and capped at 365
-		vAssume(zzLeap(ys) == zzLeap(ye) || mm <= 2)
-		vAssume(want <= 365)
-	}
-	vAssert("C05.annualday.record_on_configured_date_in_every_year", OUTDAY == want)
 }
